@@ -610,7 +610,13 @@ func ruleC10_4(c *Ctx, r *Rep) {
 			}
 			// the registered hook wakes publish listeners
 			for _, a := range call.Call.Args {
-				if f := funcOf(a); f != nil {
+				f := funcOf(a)
+				if f != nil {
+					if t := boundTarget(f); t != nil {
+						f = t // a method value
+					}
+				}
+				if f != nil {
 					for _, inner := range f.AnonFuncs {
 						if len(callsIn(inner, false, func(cal *ssa.Function, _ ssa.CallInstruction) bool { return cal.Name() == "WakePublishListeners" })) > 0 {
 							return true
@@ -621,6 +627,12 @@ func ruleC10_4(c *Ctx, r *Rep) {
 			return false
 		}
 	}
+	// either form of publish notification serves every operation: the notifyPublish helper (which registers the
+	// waking commit hook) or a hand-written waking hook
+	eitherNotify := func(fn *ssa.Function) func(in ssa.Instruction) bool {
+		h := isWakingHook(fn)
+		return func(in ssa.Instruction) bool { return isNotifyPublish(in) || h(in) }
+	}
 	type spec struct {
 		fn     string
 		what   string
@@ -629,12 +641,12 @@ func ruleC10_4(c *Ctx, r *Rep) {
 	}
 	specs := []spec{
 		{fnDeliver, "a created delivery", func(*ssa.Function) func(ssa.Instruction) bool { return isNotifyPublish }, "field:ID"},
-		{fnDelay, "a zero/negative modify-deadline (nack)", func(*ssa.Function) func(ssa.Instruction) bool { return isNotifyPublish }, "call:Scan"},
+		{fnDelay, "a zero/negative modify-deadline (nack)", func(*ssa.Function) func(ssa.Instruction) bool { return isNotifyPublish }, "select:subscription_id"},
 		{fnSeekTime, "a seek", func(*ssa.Function) func(ssa.Instruction) bool { return isNotifyPublish }, "field:ID"},
 		{fnSeekSnap, "a seek", func(*ssa.Function) func(ssa.Instruction) bool { return isNotifyPublish }, "field:ID"},
-		{fnAck, "an ack (an ordered successor may become deliverable)", isWakingHook, ""},
-		{fnDeadLetter, "a dead-lettering (an ordered successor may become deliverable)", isWakingHook, ""},
-		{fnPruneED, "pruning expired deliveries (an ordered successor may become deliverable)", isWakingHook, ""},
+		{fnAck, "an ack (an ordered successor may become deliverable)", eitherNotify, ""},
+		{fnDeadLetter, "a dead-lettering (an ordered successor may become deliverable)", eitherNotify, ""},
+		{fnPruneED, "pruning expired deliveries (an ordered successor may become deliverable)", eitherNotify, ""},
 	}
 	for _, sp := range specs {
 		fn := r.Anchor("C10.4", sp.fn)
@@ -689,7 +701,25 @@ func ruleC10_4(c *Ctx, r *Rep) {
 							if u, isU := v.(unknownSlice); isU {
 								v = u.Value
 							}
-							if sources(v)[sp.target] {
+							if sp.target == "select:subscription_id" {
+								// the ids come from a SELECT of the touched deliveries' subscription column in this operation
+								for _, q := range c.EntShape().Stmts {
+									if q.Table != "deliveries" || q.Kind != "select" || c.Owner(q) != sp.fn {
+										continue
+									}
+									selSub := false
+									for _, col := range q.SelCols {
+										if col == "subscription_id" {
+											selSub = true
+										}
+									}
+									for _, t := range q.Terms {
+										if selSub && dependsOnCall(v, t.Call) {
+											okT = true
+										}
+									}
+								}
+							} else if sources(v)[sp.target] {
 								okT = true
 							}
 						}
